@@ -24,13 +24,20 @@ def tpi_default(h, pairing="PM-PM", law="Spring", form="force", seed=0):
     s1, s2 = pairing.split("-")
 
     def mk(kind, name):
+        if kind == "Fm":
+            # frame with prescribed motion: the interaction length depends on t explicitly, the system starts at t0 != 0
+            from cardillo.discrete import Frame
+            v = h.vec(name + "_v", 3)
+            r0 = np.array([0.5, -0.25, 1.0])
+            # (at rest at t0 = 0.75, so that dampers see no relative velocity there, but elsewhere at any other time)
+            return Frame(r_OP=lambda t: r0 + v * ((t - 0.75) * (t - 0.75)), r_OP_t=lambda t: 2 * v * (t - 0.75), r_OP_tt=lambda t: 2 * v + 0 * t, name=name)
         if kind == "RB":
             return RigidBody(1.5, np.diag([1.0, 2.0, 3.0]), q0=np.concatenate([h.vec(name + "_r", 3), h.quat(name + "_P")]), name=name)
         if kind == "PM":
             return PointMass(1.0, q0=h.vec(name + "_r", 3), name=name)
         return lib.make_frame(h, rng, name, moving=False)[0]
     a, b = mk(s1, "a"), mk(s2, "b")
-    B1 = h.vec("B1", 3) if s1 != "PM" else np.zeros(3)
+    B1 = h.vec("B1", 3) if s1 not in ("PM", "Fm") else np.zeros(3)
     B2 = h.vec("B2", 3) if s2 != "PM" else np.zeros(3)
     tpi = TwoPointInteraction(a, b, B_r_CP1=B1, B_r_CP2=B2)
     k = h.pos("k")
@@ -40,7 +47,7 @@ def tpi_default(h, pairing="PM-PM", law="Spring", form="force", seed=0):
         el = KelvinVoigtElement(tpi, k, h.pos("d"), compliance_form=(form == "compliance"))
     else:
         el = MaxwellElement(tpi, k, h.pos("eta"))
-    sysm = System()
+    sysm = System(t0=0.75) if s1 == "Fm" else System()
     sysm.add(a, b, tpi, el)
     ok = h.call("System.assemble succeeds", lib.assemble, sysm, allowed=(AssertionError,))
     if ok is None:
@@ -83,7 +90,7 @@ def revolute_default(h, first="RB", law="Spring", form="force", axis=2, seed=0, 
     from cardillo.force_laws import Spring, KelvinVoigtElement, MaxwellElement
     h.option("arctan_hints", False)
     k = h.pos("k")
-    ang0 = h.real("angle0")
+    ang0 = h.angle("angle0")         # (registered angle: a change that takes cos / sin of angle0 stays encodable)
 
     def extra(rp):
         if law == "Spring":
@@ -105,6 +112,11 @@ def revolute_default(h, first="RB", law="Spring", form="force", axis=2, seed=0, 
     sysm = rp.sysm
     _stress_free(h, sysm, rp.el, law, form, sysm.t0, sysm.q0, sysm.u0)
     h.eq("reference angle is the initial joint angle", rp.el.l_ref, rp.joint.l(sysm.t0, sysm.q0[rp.joint.qDOF]))
+    # after System.reset() the initial configuration is still stress-free
+    sysm.reset()
+    qE = rp.el.qDOF
+    h.eq("after reset: E_pot(t0, q0) = 0", rp.el.E_pot(sysm.t0, sysm.q0[qE]), 0.0, tol=1e-9)
+    h.eq("after reset: joint angle at the initial configuration = reference angle", rp.joint.l(sysm.t0, sysm.q0[rp.joint.qDOF]), rp.el.l_ref, tol=1e-9)
 
 
 def tpi_reattach(h, law="Spring", form="force", seed=0):
@@ -159,6 +171,8 @@ def cases(tier, seed):
                 if first == "RB" and (tier == "thorough" or law in ("Spring", "Maxwell")):
                     cs.append(Case(f"revolute/RB-rotated/{law}/{form}/ax{axis}", revolute_default,
                                    dict(first=first, law=law, form=form, axis=axis, seed=seed, rotated=True), timeout=T))
+    for law, form in laws:
+        cs.append(Case(f"tpi/Fm-PM(t0=0.75)/{law}/{form}", tpi_default, dict(pairing="Fm-PM", law=law, form=form, seed=seed), timeout=T))
     for law, form in laws:
         cs.append(Case(f"tpi_reattach/{law}/{form}", tpi_reattach, dict(law=law, form=form, seed=seed), timeout=T))
     return cs
